@@ -19,7 +19,7 @@ META = {
 def queries(tier, seed, build):
     full = build.sub("full")
     qs = []
-    for n, mp in (("descrypt", 10), ("bigcrypt", 12), ("bsdicrypt", 6), ("nt", 6)):
+    for n, mp in (("descrypt", 10), ("bigcrypt", 12), ("bsdicrypt", 10), ("nt", 6)):
         q = rel_query(BY_NAME[n], "c07-pure-" + n, "REL_PURE", max_p=mp)
         q.build = full
         qs.append(q)
